@@ -83,7 +83,8 @@ def run(ctx):
                     sm[k] = sm[k][:900] + " ...(truncated)"
     if hb:
         budget = (30 * 24 if quick else 30 * 400) * (3 if ctx.broken() else 1)
-        rc, out, _ = vcheck.sh([hb, "falsify", str(ctx.seed), str(budget)], timeout=2400)
+        maxlog = "6" if quick else "9"   # largest log2(trace length); thorough also takes traces of 128..512 rows
+        rc, out, _ = vcheck.sh([hb, "falsify", str(ctx.seed), str(budget), maxlog], timeout=2400)
         nfail = 0
         seen = False
         classes = {}
@@ -94,7 +95,7 @@ def run(ctx):
                 except ValueError:
                     continue
                 f["profile"] = "release"
-                f["replay"] = f"{hb} falsify {ctx.seed} {budget}   (single case: {hb} one {ctx.seed} {budget} <idx>)"
+                f["replay"] = f"{hb} falsify {ctx.seed} {budget} {maxlog}   (single case: {hb} one {ctx.seed} {budget} <idx> {maxlog})"
                 nfail += 1
                 ctx.add_failure(f)
             elif line.startswith("h "):
